@@ -65,6 +65,23 @@ CHECKS = {
             "by TLC (Trace_Msg) against the real constructor's verdicts in the three cells, plus naming of type and bound and embedding in the "
             "FromStr and serde errors. The free-text half (phrase table) is the weak part: unrecognised phrases are inconclusive.",
             "6 C16"),
+    "C02": ("written rules are enforced as written or rejected",
+            "The bound parser (speculative literal, fallback expression on the real cursor) and the attribute loop (each block kind is assigned) are "
+            "transcribed into TLA+ and model-checked against the denotation of the written source; the spellings/layouts where they differ are the "
+            "candidates. Every spelling and layout is compiled against /repo; accepted ones are driven around the denoted bound and TLC validates the "
+            "recorded behaviour against the DENOTED declaration (Trace_Value); written derives are probed at compile time.",
+            "6 C02"),
+    "C08": ("unsound declarations refused, well-formed ones accepted, generated tests catch the rest",
+            "The expansion pipeline (parse_meta, attribute loop, guard validation, trait validation, generation, rustc) is a TLA+ state machine "
+            "model-checked against an independent three-valued reference predicate over slices of the attribute grammar; every enumerated declaration is "
+            "built against /repo under its feature set and TLC validates the real verdicts (and the results of the generated unit tests) against the "
+            "reference predicate.",
+            "6 C08"),
+    "C15": ("no_std-clean expansion",
+            "Configuration enumeration: the well-formed non-string declarations of MC_Decl (derive sets x validation kinds x const_fn/default/custom "
+            "error/generics) are built inside a #![no_std] crate against nutype without default features; TLC validates the verdicts. The specification "
+            "contributes the space and the expected verdict, nothing deeper (labelled as such).",
+            "6 C15"),
 }
 
 
